@@ -9,6 +9,7 @@
 mod audit;
 mod connector;
 mod text;
+mod boxlist;
 
 use std::cell::{Cell, RefCell};
 use std::collections::{BTreeMap, BTreeSet};
@@ -151,6 +152,27 @@ fn ty(t: &Type, this: &str) -> R<String> {
             }
         }
         Type::Reference(r) => ty(&r.elem, this)?,
+        Type::ImplTrait(it) => {
+            // `impl IntoIterator<Item = T>` / `impl Iterator<Item = T>`: a list
+            for b in &it.bounds {
+                if let syn::TypeParamBound::Trait(tb) = b {
+                    if let Some(seg) = tb.path.segments.last() {
+                        if seg.ident == "IntoIterator" || seg.ident == "Iterator" {
+                            if let syn::PathArguments::AngleBracketed(a) = &seg.arguments {
+                                for ga in &a.args {
+                                    if let syn::GenericArgument::AssocType(at) = ga {
+                                        if at.ident == "Item" {
+                                            return Ok(format!("(List {})", ty(&at.ty, this)?));
+                                        }
+                                    }
+                                }
+                            }
+                        }
+                    }
+                }
+            }
+            return Err(format!("unsupported type {}", quote::quote!(#t)));
+        }
         Type::Tuple(t) => {
             if t.elems.is_empty() {
                 "Unit".into()
@@ -181,6 +203,10 @@ struct Cx<'a> {
     forbidden: BTreeSet<String>,
     /// function-local `const` items emitted as definitions of the same name
     consts: BTreeSet<String>,
+    /// `?` unwraps an `Option` in a function returning `Option` (with `monadic`)
+    opt_monad: bool,
+    /// `Some(ref mut b)` aliases of `self.field` in a `&mut self` method: b -> field
+    refmut: RefCell<BTreeMap<String, String>>,
 }
 
 impl<'a> Cx<'a> {
@@ -196,6 +222,8 @@ impl<'a> Cx<'a> {
             ext_vars: RefCell::new(BTreeSet::new()),
             forbidden: BTreeSet::new(),
             consts: BTreeSet::new(),
+            opt_monad: false,
+            refmut: RefCell::new(BTreeMap::new()),
         }
     }
 }
@@ -477,6 +505,19 @@ impl<'a> Cx<'a> {
                         }
                     }
                 }
+                if self.mut_self && semi.is_some() && rest.is_empty() {
+                    if let Expr::Assign(a) = e {
+                        if let Expr::Unary(u) = &*a.left {
+                            if let (UnOp::Deref(_), Expr::Path(p)) = (&u.op, &*u.expr) {
+                                if let Some(field) = p.path.get_ident().and_then(|i| self.refmut.borrow().get(&i.to_string()).cloned()) {
+                                    let v = self.expr(&a.right)?;
+                                    let body = self.stmts_k(rest, k)?;
+                                    return Ok(format!("let self := {{ self with {field} := (some {v}) }}\n{body}"));
+                                }
+                            }
+                        }
+                    }
+                }
                 if rest.is_empty() {
                     return self.expr_k(e, k);
                 }
@@ -493,11 +534,58 @@ impl<'a> Cx<'a> {
                         }
                     }
                 }
+                if self.mut_self {
+                    if let Expr::If(i) = e {
+                        if let Expr::Let(l) = &*i.cond {
+                            return self.mut_self_if_let(i, l, rest, k);
+                        }
+                    }
+                }
                 Err(format!("unsupported statement {}", quote::quote!(#e)))
             }
             Stmt::Macro(m) => Err(format!("unsupported macro statement {}", quote::quote!(#m))),
             Stmt::Item(i) => Err(format!("unsupported item in body {}", quote::quote!(#i))),
         }
+    }
+
+    /// `&mut self` method: `if let PAT = SCRUT { .. } else { .. }` as a statement; each branch updates
+    /// `self`; `Some(ref mut b)` over `self.field` makes `*b = E` an update of that field
+    fn mut_self_if_let(&self, i: &ExprIf, l: &syn::ExprLet, rest: &[Stmt], k: &dyn Fn(String) -> R<String>) -> R<String> {
+        let (s, cols) = self.scrut(&l.expr)?;
+        let alts = self.arm_alts(&l.pat, cols)?;
+        let mut alias: Option<String> = None;
+        if let (Pat::TupleStruct(ts), Expr::Field(f)) = (&*l.pat, &*l.expr) {
+            if let (true, Some(Pat::Ident(pi)), syn::Member::Named(n)) = (ts.path.is_ident("Some") && ts.elems.len() == 1, ts.elems.first(), &f.member) {
+                if pi.by_ref.is_some() && pi.mutability.is_some() {
+                    if !matches!(&*f.base, Expr::Path(p) if p.path.is_ident("self")) {
+                        return Err("`ref mut` binding of something other than a field of self".into());
+                    }
+                    self.refmut.borrow_mut().insert(pi.ident.to_string(), ident(&n.to_string()));
+                    alias = Some(pi.ident.to_string());
+                }
+            }
+        }
+        let id = |v: String| -> R<String> { Ok(v) };
+        let then_b = self.stmts_k(&i.then_branch.stmts, &id);
+        if let Some(a) = alias {
+            self.refmut.borrow_mut().remove(&a);
+        }
+        let then_b = then_b?;
+        let else_b = match &i.else_branch {
+            None => "self".to_string(),
+            Some((_, e)) => match &**e {
+                Expr::Block(b) => self.stmts_k(&b.block.stmts, &id)?,
+                other => return Err(format!("unsupported else branch {}", quote::quote!(#other))),
+            },
+        };
+        let wild = vec!["_"; cols].join(", ");
+        let mut out = format!("let self := (match {s} with");
+        for a in &alts {
+            write!(out, "\n  | {a} =>\n{}", indent(&then_b, 4)).unwrap();
+        }
+        write!(out, "\n  | {wild} =>\n{})", indent(&else_b, 4)).unwrap();
+        let body = self.stmts_k(rest, k)?;
+        Ok(format!("{out}\n{body}"))
     }
 
     /// expression in a position where `return` may occur: value flows to `k`, `return e` yields `e`
@@ -533,6 +621,10 @@ impl<'a> Cx<'a> {
                     let hs: Vec<(String, String)> = self.hoists.borrow_mut().split_off(mark);
                     let mut inner = k(v)?;
                     for (name, he) in hs.into_iter().rev() {
+                        if self.opt_monad {
+                            inner = format!("(match {he} with\n  | none =>\n    none\n  | some {name} =>\n{})", indent(&inner, 4));
+                            continue;
+                        }
                         inner = format!(
                             "(match {he} with\n  | Except.error e__ =>\n    (Except.error e__)\n  | Except.ok {name} =>\n{})",
                             indent(&inner, 4)
@@ -600,6 +692,19 @@ impl<'a> Cx<'a> {
             "unwrap_or" => {
                 known(1)?;
                 format!("(Option.getD {r} {})", a[0])
+            }
+            "into_iter" if a.is_empty() => r.clone(),
+            "reduce" => {
+                known(1)?;
+                format!("(Iter.reduce {} {r})", a[0])
+            }
+            "fold" => {
+                known(2)?;
+                format!("(List.foldl {} {} {r})", a[1], a[0])
+            }
+            "filter" => {
+                known(1)?;
+                format!("(List.filter {} {r})", a[0])
             }
             "is_some" => format!("(Option.isSome {r})"),
             "is_none" => format!("(Option.isNone {r})"),
@@ -1901,6 +2006,7 @@ fn main() {
         ("Audit.lean", audit::gen_audit as fn(&Path) -> R<String>),
         ("Connector.lean", connector::gen_connector as fn(&Path) -> R<String>),
         ("Text.lean", text::gen_text as fn(&Path) -> R<String>),
+        ("BoxList.lean", boxlist::gen_boxlist as fn(&Path) -> R<String>),
     ] {
         match gen(src) {
             Ok(text) => match write_if_changed(&out.join(name), &text) {
